@@ -4,7 +4,7 @@ import os
 import numpy as np
 from hypothesis import strategies as st
 
-from .. import files, iomodel, ops
+from .. import codec, files, iomodel, ops
 from ..core import Violation
 
 META = {
@@ -202,6 +202,8 @@ def run_plan(case, ctx, path, T, op, positions_kinds, L):
 
 
 def run_case(case, ctx):
+    if case.get("check") == "undisturbed":
+        return run_undisturbed(case, ctx)
     if "then" in case and "a" not in case:
         return run_open_case(case, ctx)
     path, T = get_file(case["file"], ctx)
@@ -341,9 +343,68 @@ def enumerate_fixed(ctx):
     ctx.extra["enumerated_fault_points"] = n
 
 
+# ---- no read fails: "returns the true data regardless of the order and timing in which parallel range reads complete" ---
+PLAIN_FILE = {"kind": "spec", "family": "4x4", "rate": 8, "blockshape": [4, 4, 256], "shape": [21, 26, 40], "version": "0.2.8",
+              "values": {"kind": "gauss", "vseed": 23}, "il": [1, 1], "xl": [1, 1], "z0": 0, "dz_us": 4000, "arrays": [189, 193]}
+
+
+@st.composite
+def undisturbed_cases(draw):
+    """Calls that split into several range reads (crosslines and z-slices of a cube with 42 block columns), made
+    repeatedly through a reader that was given the file in one of the forms a caller may use; nothing is injected."""
+    return {"check": "undisturbed", "form": draw(st.sampled_from(["str", "path", "bytes", "fileobj", "raw", "blob"])),
+            "calls": [[draw(st.sampled_from(["read_crossline", "read_zslice", "read_crossline", "read_inline", "read_subvolume"])),
+                       draw(st.floats(0, 1, exclude_max=True))] for _ in range(draw(st.integers(6, 14)))]}
+
+
+def run_undisturbed(case, ctx):
+    from seismic_zfp.read import SgzReader
+    path, T = get_file(PLAIN_FILE, ctx)
+    opened = []
+    form = case["form"]
+    if form == "blob":
+        arg = iomodel.CountingBlob(path)
+    elif form == "raw":
+        arg = open(path, "rb", buffering=0)
+        opened.append(arg)
+    else:
+        arg = ops.in_form(path, form, opened)
+    r = SgzReader(arg)
+    try:
+        for m, u in case["calls"]:
+            if m == "read_crossline":
+                x = int(u * T.n_xl)
+                got, want, what = r.read_crossline(x), T.V[:, x], f"read_crossline({x})"
+            elif m == "read_zslice":
+                z = int(u * T.n_s)
+                got, want, what = r.read_zslice(z), T.V[:, :, z], f"read_zslice({z})"
+            elif m == "read_inline":
+                i = int(u * T.n_il)
+                got, want, what = r.read_inline(i), T.V[i], f"read_inline({i})"
+            else:
+                i = int(u * (T.n_il - 5))
+                got, want, what = r.read_subvolume(i, i + 5, 3, 22, 1, 30), T.V[i:i + 5, 3:22, 1:30], f"read_subvolume({i}, {i + 5}, 3, 22, 1, 30)"
+            if got.shape != want.shape or not codec.bits_equal(np.asarray(got, dtype=np.float32), want):
+                raise Violation(f"undisturbed-read-wrong:{m}", f"file given as {form}, no read failed: {what} differs from the true data")
+    except Violation:
+        raise
+    except Exception as e:
+        raise Violation(f"undisturbed-read-raised:{type(e).__name__}", f"file given as {form}, nothing injected: {type(e).__name__}: {e}")
+    finally:
+        try:
+            r.close()
+        except Exception:
+            pass
+        for f in opened:
+            f.close()
+    return {"sig": ["undisturbed", form, sorted({m for m, _ in case["calls"]})], "labels": ["undisturbed", "form:" + form]}
+
+
 def shard_main(ctx):
     enumerate_fixed(ctx)
     if ctx.failures:
+        return
+    if not ctx.explore("undisturbed", undisturbed_cases(), run_case, ctx.n(12, 120)):
         return
     if not ctx.explore("faults3d", cases(), run_case, ctx.n(250, 3000)):
         return
